@@ -175,17 +175,41 @@ Proof.
   { intros hB Hin a Ha. unfold U. rewrite history_atoms_app. apply in_or_app; left.
     unfold history_atoms in *. apply in_flat_map in Ha. destruct Ha as [o [Ho Ha]].
     apply in_flat_map. exists o. split; auto. apply in_concat. eauto. }
-  assert (HF : Forall2 (ro_refines U) (map (fun hB => view (g_ops IB) (final (g_step IB) g_empty hB)) hBs)
-                       (map (final s_step []) hBs)).
-  { clear Hnd Hd. induction hBs as [|hB hBs IH]; simpl; constructor.
+  assert (HF0 : forall l, (forall hB, In hB l -> forall a, In a (history_atoms hB) -> U a) ->
+                Forall2 (ro_refines U) (map (fun hB => view (g_ops IB) (final (g_step IB) g_empty hB)) l)
+                        (map (final s_step []) l)).
+  { induction l as [|hB l IH]; intros Hl; simpl; constructor.
     - apply (view_refines (g_ops IB) _ _ U _ _
                (base_sim IB eB wB kB U SB (fun a b Ha Hb => proj1 (Hk a b Ha Hb))) (reads_in_dom U)).
-      apply (inmemory_after IB eB wB kB U SB (fun a b Ha Hb => proj1 (Hk a b Ha Hb))). apply HUB. left; auto.
-    - apply IH. intros hB' Hin. apply HUB. right; auto. }
+      apply (inmemory_after IB eB wB kB U SB (fun a b Ha Hb => proj1 (Hk a b Ha Hb))). apply Hl. left; auto.
+    - apply IH. intros hB' Hin. apply Hl. right; auto. }
+  pose proof (HF0 hBs HUB) as HF.
   pose proof (merged_run (g_ops IW) _ _ U _ _
                 (base_sim IW eW wW kW U SW (fun a b Ha Hb => proj2 (Hk a b Ha Hb))) HF
                 g_empty [] (base_rel_empty IW eW wW U)) as H.
   rewrite app_nil_r in H. apply H; auto. apply wrap_dom_hist; auto.
+Qed.
+
+(* NewTeeingStore(base): the output store is a fresh array store *)
+Lemma tee_over_array (hash : atom -> Z) (chash : Z -> Z) (hB h : list op) :
+  Forall (wrapper_domain (final s_step [] hB)) h ->
+  Forall2 out_covers
+    (run (o_step (tee_ops (g_ops (array_impl hash chash))
+                          (view (g_ops (array_impl hash chash)) (final (g_step (array_impl hash chash)) g_empty hB)))) g_empty h)
+    (run s_step (final s_step [] hB) h).
+Proof.
+  intros Hd. apply (tee_inmemory _ _ _ _ _ _ _ _ (array_shard_ok hash chash) (array_shard_ok hash chash)); auto.
+Qed.
+Lemma tee_over_simple (hash : atom -> Z) (chash : Z -> Z) (hB h : list op) :
+  collision_free hash (hB ++ h) ->
+  Forall (wrapper_domain (final s_step [] hB)) h ->
+  Forall2 out_covers
+    (run (o_step (tee_ops (g_ops (array_impl hash chash))
+                          (view (g_ops (simple_impl hash)) (final (g_step (simple_impl hash)) g_empty hB)))) g_empty h)
+    (run s_step (final s_step [] hB) h).
+Proof.
+  intros Hcf Hd. apply (tee_inmemory _ _ _ _ _ _ _ _ (simple_shard_ok hash) (array_shard_ok hash chash)); auto.
+  intros a b Ha Hb. split; auto. intros E. apply Hcf; auto.
 Qed.
 
 (* boolean comparison of outputs, for finite sweeps *)
